@@ -645,6 +645,31 @@ def explore(chk, ncases, nmax, enum_limit, do_model=True, kinds=None):
                     chk.mismatch('gsm_helpers.solution_cost_from_cst %r vs model %r for cst %r' % (ic, mcv, vec), c)
                 if ic is not None and not close(ic, ind.cost(vec)):
                     chk.fail('gsm_helpers.solution_cost_from_cst|vs-independent-formula', '%r vs %r for cst %r' % (ic, ind.cost(vec), vec), c)
+                # safety stocks and base-stock levels of the same CST vector (scalar and list forms): safety stock = z sigma sqrt(net lead time),
+                # base-stock level = net mean demand x net lead time + safety stock; safety-stock cost through the base-stock route: a solution
+                # described by its base-stock levels costs sum_k h_k (level_k - net mean_k), which at net lead time 1 is the CST cost again
+                if ic is not None:
+                    try:
+                        ssl = gsm_helpers.safety_stock_levels(P['pt'], ids, vec); bsl = gsm_helpers.cst_to_base_stock_levels(P['pt'], ids, vec)
+                        one = ids[len(ids) // 2]
+                        ss1 = gsm_helpers.safety_stock_levels(P['pt'], one, vec); bs1 = gsm_helpers.cst_to_base_stock_levels(P['pt'], one, vec)
+                        chk.count('gsm_helpers:safety-stock/base-stock levels checked')
+                        for i in ids:
+                            want = ind.z[i] * ind.sig[i] * math.sqrt(ind.nlt(vec, i))
+                            if not close(ssl[i], want):
+                                chk.fail('gsm_helpers.safety_stock_levels|vs-independent-formula', 'node %s: %r vs z sigma sqrt(NLT) = %r for cst %r' % (i, ssl[i], want, vec), c); break
+                            mean_i = float(P['pt'].nodes_by_index[i].net_demand_mean)
+                            if not close(bsl[i], mean_i * ind.nlt(vec, i) + want):
+                                chk.fail('gsm_helpers.cst_to_base_stock_levels|vs-independent-formula', 'node %s: %r vs mean x NLT + safety stock = %r for cst %r'
+                                         % (i, bsl[i], mean_i * ind.nlt(vec, i) + want, vec), c); break
+                        if not (close(ss1, ssl[one]) and close(bs1, bsl[one])):
+                            chk.fail('gsm_helpers|scalar-vs-list-form', 'node %s: scalar call gives (%r, %r), list call (%r, %r) for cst %r' % (one, ss1, bs1, ssl[one], bsl[one], vec), c)
+                        lv = {i: float(P['pt'].nodes_by_index[i].net_demand_mean) + ssl[i] for i in ids}
+                        cb = gsm_helpers.solution_cost_from_base_stock_levels(P['pt'], lv)
+                        if not close(cb, ic):
+                            chk.fail('gsm_helpers.solution_cost_from_base_stock_levels|vs-cst-cost', 'levels = net mean + safety stock of cst %r cost %r, the CST cost is %r' % (vec, cb, ic), c)
+                    except Exception as e:
+                        chk.fail('gsm_helpers|raises-%s' % exc_kind(e), 'safety_stock_levels / cst_to_base_stock_levels / solution_cost_from_base_stock_levels on cst %r: %s' % (vec, str(e)[:200]), c)
         npos = sum(1 for i in ind.ids if ind.nlt(cst, i) > 0) if not ind.infeasibilities(cst) else 0
         nontriv = n >= 2 and (0 < npos < n or (info['enum'] or 0) >= 20)
         chk.case(c, nontriv, case_key(c))
